@@ -37,12 +37,20 @@ Definition expected (fired : list Z) (c : conn) : reg_obs :=
      ro_syncs := if reaches_sync_o o then 1 else 0;
      ro_events := match o with OGood _ _ e => delivered e fired | _ => [] end |}.
 
-Definition reg_obs_eqb (a b : reg_obs) : bool :=
-  Bool.eqb (ro_reg_ok a) (ro_reg_ok b) && Bool.eqb (ro_configured a) (ro_configured b)
+(* [reg_det]: whether the plugin's own RegisterPlugin call returns nil is determined only when the
+   runtime refuses it in the handler (never registered) or keeps the plugin.  When the runtime drops the
+   connection right after registration (bad mask, Configure failed or timed out, synchronisation failed),
+   the answer to RegisterPlugin races with the close of the connection: the plugin may see nil or
+   "ttrpc: closed".  No property speaks about it; it is not compared. *)
+Definition reg_obs_eqb (reg_det : bool) (a b : reg_obs) : bool :=
+  (negb reg_det || Bool.eqb (ro_reg_ok a) (ro_reg_ok b)) && Bool.eqb (ro_configured a) (ro_configured b)
   && (ro_syncs a =? ro_syncs b) && list_eqb Z.eqb (ro_events a) (ro_events b).
 
+Definition reg_determined (o : outcome) : bool :=
+  match o with OGood _ _ _ => true | _ => negb (registered o) end.
+
 Definition corr_reg (c : reg_case) : bool :=
-  forallb (fun co => reg_obs_eqb (expected (rc_fired c) (fst co)) (snd co)) (rc_conns c).
+  forallb (fun co => reg_obs_eqb (reg_determined (handle (fst co))) (expected (rc_fired c) (fst co)) (snd co)) (rc_conns c).
 
 (* validated: everything the property demands before synchronisation *)
 Definition validated_b (c : conn) : bool :=
